@@ -20,7 +20,7 @@ with real commits behind the vfs seam, for repository/bundle format pairs
     has equal fields, to_lines is a fixpoint, patch verification says 'verified'.
  T  tampering: for a fixed list of artefacts (bundles of the three formats, merge
     directive with patch+bundle) every single-line deletion, duplication and one
-    byte flip per line: reading+installing must raise, or the directive's patch
+    byte flip per line and one blank inserted per line: reading+installing must raise, or the directive's patch
     check must say 'failed', or whatever is installed must have testaments identical
     to the source (harmless).
 """
@@ -449,7 +449,8 @@ def norm_patch(p):
 
 
 def mutations(text):
-    """Every single-line deletion, duplication and one byte flip per line (middle byte, lowest bit)."""
+    """Every single-line deletion, duplication, one byte flip per line (middle byte, lowest bit) and one blank
+    inserted in the middle of a line."""
     lines = text.splitlines(True)
     for i, line in enumerate(lines):
         yield ("delete", i), b"".join(lines[:i] + lines[i + 1:])
@@ -459,6 +460,8 @@ def mutations(text):
             j = len(body) // 2
             flipped = body[:j] + bytes([body[j] ^ 1]) + body[j + 1:] + line[len(body):]
             yield ("flip", i), b"".join(lines[:i] + [flipped] + lines[i + 1:])
+            spaced = body[:j] + b" " + body[j:] + line[len(body):]
+            yield ("space", i), b"".join(lines[:i] + [spaced] + lines[i + 1:])
 
 
 def build_artefact(kind, repo_fmt, bfmt, hidx):
@@ -493,9 +496,7 @@ def build_artefact(kind, repo_fmt, bfmt, hidx):
         read_bundle(BytesIO(text)).install_revisions(warm.repository)
     else:
         md2 = merge_directive.MergeDirective.from_lines(text.splitlines(True))
-        md2.install_revisions(warm.repository)
-        if md2.get_merge_request(warm.repository)[2] != "verified":
-            raise HarnessError("untouched directive does not verify")
+        md2.install_revisions(warm.repository)      # (whether it verifies is checked in parts D and M)
     with warm.repository.lock_read():
         if testaments(warm.repository, ids[t]) != want[ids[t]]:
             raise HarnessError("untouched artefact does not reproduce the target")
@@ -545,8 +546,9 @@ def _work_t(chunk):
                         status = md.get_merge_request(repo)[2]
                         if status == "failed":
                             return ["patch-check-failed", None, None]
-                        if status == "verified" and norm_patch(md.patch) != norm_patch(orig_patch):
-                            return ["undetected", "altered-preview-patch-verified", ""]
+                        if md.patch is not None and norm_patch(md.patch) != norm_patch(orig_patch):
+                            # the preview patch was altered beyond the documented tolerance and nobody said 'failed'
+                            return ["undetected", "altered-preview-patch-" + str(status), ""]
                 except BaseException as e:  # noqa
                     code_error(e)
                     return ["raises:" + type(e).__name__, None, None]
@@ -567,8 +569,11 @@ def _work_t(chunk):
                 # calibrate on the untouched artefact under the present machine load: the limit is 40x what a
                 # clean read+install costs in a forked child, at least HANG_CPU_SECONDS
                 base_res = run_isolated(lambda: attempt(text), 120)
-                if base_res is None or base_res[0] != "harmless":
+                if base_res is None or base_res[0] not in ("harmless", "patch-check-failed"):
                     raise HarnessError("untouched artefact: %r" % (base_res,))
+                if base_res[0] != "harmless":
+                    acc.violation("tamper:untouched-artefact-rejected:%s" % (kind if kind != "bundle" else "v" + bfmt),
+                                  {"artefact": kind, "outcome": base_res[0]})
                 limits[key] = max(HANG_CPU_SECONDS, 40 * LAST_CHILD["cpu"])
                 acc.count("calibration_runs")
             res = run_isolated(attempt, limits[key])
@@ -597,6 +602,9 @@ def tamper_items(thorough):
         for repo_fmt, bfmt in PAIRS_QUICK:
             arts.append(("bundle", repo_fmt, bfmt, h))
         arts.append(("directive", "2a", "4", h))
+    only = os.environ.get("VERIF_C40_TAMPER")        # development aid: restrict to one artefact kind
+    if only:
+        arts = [a for a in arts if a[0] == only]
     items = []
     sizes = []
     for a in arts:
@@ -636,8 +644,8 @@ def run(ctx):
     if "T" in parts:
         items, arts, sizes = tamper_items(ctx.thorough)
         acct = par.merge(par.pmap(_work_t, items, seed=ctx.seed))
-    if parts != "BMDT":
-        ctx.assumptions.append("PARTIAL RUN: only parts %s" % parts)
+    if parts != "BMDT" or os.environ.get("VERIF_C40_TAMPER"):
+        ctx.assumptions.append("PARTIAL RUN: only parts %s %s" % (parts, os.environ.get("VERIF_C40_TAMPER", "")))
 
     def size(d):
         return (len(d.get("dag", [])), sum(len(p) for p in d.get("dag", [])), sum(d.get("states", [])),
@@ -651,7 +659,7 @@ def run(ctx):
             ctx.violation(sig, best[sig])
     ctx.assumptions.append("bundle format 0.8 cannot carry rich-root repositories (documented IncompatibleBundleFormat): "
                            "it is exercised on pack-0.92, formats 4 and 0.9 on 2a")
-    ctx.assumptions.append("tampering model: single-line deletion, single-line duplication, one bit flipped in the middle byte of a "
+    ctx.assumptions.append("tampering model: single-line deletion, single-line duplication, one bit flipped in / one blank inserted at the middle byte of a "
                            "line; 'detected' = an exception or patch verification 'failed'; 'harmless' = every revision in the "
                            "repository afterwards has the source's testaments")
     ctx.assumptions.append("merge equivalence uses Merge3Merger on 2a working trees; THIS tree = checkout of the 'this' revision")
@@ -671,6 +679,6 @@ def run(ctx):
         "outcomes": sorted(str(o) for o in (accb.outcomes | accm.outcomes | accd.outcomes | acct.outcomes)),
         "tamper_artefacts": [list(a) + [n] for a, n in zip(arts, sizes)],
         "samples": (accb.samples[:2] + accm.samples[:1] + acct.samples[:2]) or [{"directive_field_cases": accd.n}],
-        "exhaustive": stride == 1 and parts == "BMDT",
+        "exhaustive": stride == 1 and parts == "BMDT" and not os.environ.get("VERIF_C40_TAMPER"),
         **({"capped": "VERIF_DEV_STRIDE=%d / parts %s" % (stride, parts)} if stride > 1 or parts != "BMDT" else {}),
     }
